@@ -142,6 +142,14 @@ pub proof fn lemma_col_cnt_is_sp_cnt(m: SparseBinaryMatrix, i: int, a: int, b: i
         assert(v.elements@.subrange(0, v.elements@.len() as int) =~= v.elements@);
     }
 }
+// dense-tail bit of a word vector (dcell(m, r, c) == dbit(m.dense_elements@, m.num_dense_columns, r, c))
+pub open spec fn dbit(words: Seq<u64>, nd: int, r: int, c: int) -> bool { bit_of(words[r * rww(nd) + (pad(nd) + c) / 64], (pad(nd) + c) % 64) }
+pub proof fn lemma_xor_bit(a: u64, b: u64, c: u64)
+    requires c < 64,
+    ensures bit_of(a ^ b, c as int) == (bit_of(a, c as int) != bit_of(b, c as int)),
+{
+    assert(((a ^ b) & (1u64 << c) != 0) == ((a & (1u64 << c) != 0) != (b & (1u64 << c) != 0))) by (bit_vector) requires c < 64;
+}
 pub open spec fn swap_idx(a: int, i: int, j: int) -> int { if a == i { j } else if a == j { i } else { a } }
 } // verus!
 '''
@@ -194,6 +202,16 @@ impl BinaryOctetVec {
         ensures r.elements == elements, r.length == length,
     { unimplemented!() }
 }
+// rule S6 (pair form): `let (d, s) = get_both_indices(&mut v, i, j); .. d.add_assign(s)` -- the contract is SparseBinaryVec::add_assign's own
+// (GF(2) sum of two sparse rows == symmetric difference of their key sets; returns whether a key new to d appeared), a frame for the other rows
+#[verifier::external_body]
+fn verif_rows_add_assign(v: &mut Vec<SparseBinaryVec>, i: usize, j: usize) -> (column_added: bool)
+    requires (i as int) < old(v)@.len(), (j as int) < old(v)@.len(), i != j, sv_wf(old(v)@[i as int]), sv_wf(old(v)@[j as int]),
+    ensures final(v)@.len() == old(v)@.len(), sv_wf(final(v)@[i as int]),
+            forall |k: u16| sv_has(final(v)@[i as int], k) == (sv_has(old(v)@[i as int], k) != sv_has(old(v)@[j as int], k)),
+            forall |r: int| 0 <= r < old(v)@.len() && r != i ==> #[trigger] final(v)@[r] == old(v)@[r],
+            column_added == (exists |k: u16| sv_has(old(v)@[j as int], k) && !sv_has(old(v)@[i as int], k)),
+{ unimplemented!() }
 // rule S4: vec![SparseBinaryVec::with_capacity(10); n] -- n empty sparse rows
 #[verifier::external_body]
 fn verif_empty_rows(n: usize) -> (r: Vec<SparseBinaryVec>)
@@ -311,6 +329,47 @@ impl SparseBinaryMatrix {
                         ' assert forall |q: int| 0 <= q < v.elements@.len() implies (#[trigger] v.elements@[q] as int) < self.width by { assert(sv_has(v, v.elements@[q])); }'
                         ' lemma_key_col_cnt(v.elements@, self.logical_col_to_physical@, self.physical_col_to_logical@, self.width as int, v.elements@.len() as int, start_col as int, end_col as int);'
                         ' lemma_col_cnt_is_sp_cnt(*self, row as int, start_col as int, end_col as int); }')])
+    ND = 'self.num_dense_columns as int'
+    u.fn('src/sparse_matrix.rs', 'add_assign_rows', impl=IMPLT, ret='r', rules=['A1'],
+         requires=['sp_wf(*old(self))', '(dest as int) < old(self).height', '(src as int) < old(self).height', 'dest != src',
+                   'start_col == 0 || start_col as int == old(self).width - old(self).num_dense_columns',
+                   # indexed phase: only a single-key row whose key dest already has may be added (the two asserts of the function)
+                   'old(self).column_index_disabled || start_col != 0 || ({ let sv = old(self).sparse_elements@[old(self).logical_row_to_physical@[src as int] as int];'
+                   ' let dv = old(self).sparse_elements@[old(self).logical_row_to_physical@[dest as int] as int]; sv.elements@.len() == 1 && sv_has(dv, sv.elements@[0]) })'],
+         ensures=['sp_wf(*final(self))', 'sp_frame(*old(self), *final(self))',
+                  'final(self).logical_row_to_physical@ == old(self).logical_row_to_physical@ && final(self).logical_col_to_physical@ == old(self).logical_col_to_physical@',
+                  # row addition over GF(2): the dense tail always, the sparse part when start_col == 0; every other row untouched
+                  'forall |a: int, b: int| sp_in(*old(self), a, b) ==> #[trigger] sp_cell(*final(self), a, b) == ('
+                  ' if a == dest as int && (is_dense_col(*old(self), b) || start_col == 0) { sp_cell(*old(self), dest as int, b) != sp_cell(*old(self), src as int, b) } else { sp_cell(*old(self), a, b) })'],
+         resubst=[(r'let \(dest_row, temp_row\) =\s*get_both_indices\(&mut self\.sparse_elements, physical_dest, physical_src\);', '', 'S6-pair-projection'),
+                  (r'temp_row\.len\(\)', 'self.sparse_elements[physical_src].len()', 'S6-pair-projection'),
+                  (r'dest_row\.add_assign\(temp_row\)', 'verif_rows_add_assign(&mut self.sparse_elements, physical_dest, physical_src)', 'S6-pair-projection'),
+                  (r'self\.dense_elements\[dest_word \+ word\] \^= self\.dense_elements\[src_word \+ word\];', 'self.dense_elements.set(dest_word + word, self.dense_elements[dest_word + word] ^ self.dense_elements[src_word + word]);', 'S8-index-op-assign'),
+                  (r'(?s)#\[cfg\(debug_assertions\)\]\s*\{.*?\n            \}', '', 'cfg-debug-assertions-dropped'),
+                  (r'#\[cfg\(debug_assertions\)\]\s*self\.verify\(\);', '', 'cfg-debug-assertions-dropped')],
+         inserts=[('if self.num_dense_columns > 0 {', 'before',
+                   'let ghost pd = physical_dest as int; let ghost ps = physical_src as int; let ghost nd = @ND@; let ghost h = self.height as int; let ghost d0 = self.dense_elements@;\n'
+                   'proof { assert(pd != ps) by { if pd == ps { assert(self.physical_row_to_logical@[pd] as int == dest as int); assert(self.physical_row_to_logical@[ps] as int == src as int); } }'
+                   ' if nd >= 1 { lemma_pad(nd); lemma_rww_formula(nd); lemma_word_bounds(nd, h, pd, 0); lemma_word_bounds(nd, h, ps, 0); lemma_basic_div(pad(nd), 64);'
+                   ' assert(pd * rww(nd) + rww(nd) <= h * rww(nd) && ps * rww(nd) + rww(nd) <= h * rww(nd)) by (nonlinear_arith) requires pd + 1 <= h, ps + 1 <= h, rww(nd) >= 0, pd >= 0, ps >= 0;'
+                   ' assert(pd * rww(nd) + rww(nd) <= ps * rww(nd) || ps * rww(nd) + rww(nd) <= pd * rww(nd)) by (nonlinear_arith) requires pd != ps, rww(nd) >= 0;'
+                   ' assert(h * rww(nd) <= 16777216 * 1024) by (nonlinear_arith) requires 0 <= h <= 16777216, 0 <= rww(nd) <= 1024; } }'.replace('@ND@', ND)),
+                  ('if start_col == 0 {', 'before',
+                   'let ghost d1 = self.dense_elements@;\n'
+                   'proof { assert forall |r: int, c: int| 0 <= r < h && 0 <= c < nd implies #[trigger] dbit(d1, nd, r, c) == (if r == pd { dbit(d0, nd, pd, c) != dbit(d0, nd, ps, c) } else { dbit(d0, nd, r, c) }) by {'
+                   ' lemma_word_bounds(nd, h, r, c); lemma_pad(nd); let off = (pad(nd) + c) / 64; let bt = (pad(nd) + c) % 64; lemma_div_pos_is_pos(pad(nd) + c, 64);'
+                   ' assert(off < rww(nd)) by { if off >= rww(nd) { lemma_fundamental_div_mod(pad(nd) + c, 64); assert(64 * off >= 64 * rww(nd)) by (nonlinear_arith) requires off >= rww(nd); } }'
+                   ' assert(r * rww(nd) + rww(nd) <= h * rww(nd)) by (nonlinear_arith) requires r + 1 <= h, rww(nd) >= 0; assert(r * rww(nd) >= 0) by (nonlinear_arith) requires r >= 0, rww(nd) >= 0;'
+                   ' if r == pd { lemma_xor_bit(d0[pd * rww(nd) + off], d0[ps * rww(nd) + off], bt as u64); }'
+                   ' else { assert(r * rww(nd) + rww(nd) <= pd * rww(nd) || pd * rww(nd) + rww(nd) <= r * rww(nd)) by (nonlinear_arith) requires r != pd, rww(nd) >= 0; } } }')],
+         loops={0: {'spec': ('invariant sp_wf(*old(self)), self.height == old(self).height, self.width == old(self).width, self.num_dense_columns == old(self).num_dense_columns, self.column_index_disabled == old(self).column_index_disabled,'
+                             ' self.sparse_elements@ == old(self).sparse_elements@, self.logical_row_to_physical@ == old(self).logical_row_to_physical@, self.physical_row_to_logical@ == old(self).physical_row_to_logical@,'
+                             ' self.logical_col_to_physical@ == old(self).logical_col_to_physical@, self.physical_col_to_logical@ == old(self).physical_col_to_logical@,'
+                             ' nd == @ND@, nd >= 1, h == self.height as int, 0 <= pd < h, 0 <= ps < h, pd != ps, d0 == old(self).dense_elements@, self.dense_elements@.len() == d0.len(), d0.len() == h * rww(nd),'
+                             ' dest_word as int == pd * rww(nd), src_word as int == ps * rww(nd), pd * rww(nd) + rww(nd) <= h * rww(nd), ps * rww(nd) + rww(nd) <= h * rww(nd), h * rww(nd) <= 16777216 * 1024,'
+                             ' pd * rww(nd) + rww(nd) <= ps * rww(nd) || ps * rww(nd) + rww(nd) <= pd * rww(nd), word <= rww(nd), pd * rww(nd) >= 0, ps * rww(nd) >= 0,'
+                             ' forall |p: int| 0 <= p < d0.len() ==> #[trigger] self.dense_elements@[p] == (if pd * rww(nd) <= p < pd * rww(nd) + word as int { d0[p] ^ d0[p - pd * rww(nd) + ps * rww(nd)] } else { d0[p] }),').replace('@ND@', ND)}},
+         append=AAR_APPEND)
     u.fn('src/sparse_matrix.rs', 'swap_rows', impl=IMPLT, ret='r',
          requires=['sp_wf(*old(self))', '(i as int) < old(self).height', '(j as int) < old(self).height'],
          ensures=['sp_wf(*final(self))', 'sp_frame(*old(self), *final(self))',
@@ -334,6 +393,21 @@ impl SparseBinaryMatrix {
     u.raw('} // verus!')
     return u
 
+
+AAR_APPEND = r'''proof {
+    let o = *old(self); let n = *self;
+    assert forall |a: int, b: int| sp_in(o, a, b) implies #[trigger] sp_cell(n, a, b) == (if a == dest as int && (is_dense_col(o, b) || start_col == 0) { sp_cell(o, dest as int, b) != sp_cell(o, src as int, b) } else { sp_cell(o, a, b) }) by {
+        let pa = o.logical_row_to_physical@[a] as int;
+        assert(pa != pd || a == dest as int) by { if pa == pd { assert(o.physical_row_to_logical@[pa] as int == a); } }
+        if is_dense_col(o, b) {
+            let c = b - (o.width - o.num_dense_columns);
+            assert(n.dense_elements@ == d1 && o.dense_elements@ == d0 && nd == o.num_dense_columns as int);
+            assert(dcell(n, pa, c) == dbit(d1, nd, pa, c) && dcell(o, pa, c) == dbit(d0, nd, pa, c) && dcell(o, pd, c) == dbit(d0, nd, pd, c) && dcell(o, ps, c) == dbit(d0, nd, ps, c));
+            assert(ps == o.logical_row_to_physical@[src as int] as int && pd == o.logical_row_to_physical@[dest as int] as int);
+        }
+    }
+}
+'''
 
 DENSE_INDEX_LEMMAS = r'''
 verus! {
